@@ -109,6 +109,8 @@ def parse_model(o):
         return ('EXC', r.word())
     if tag == 'FATAL':
         return ('FATAL', r.int())
+    if tag == 'FUEL':
+        return ('HANG', 'model: out of fuel')
     return (tag,)
 
 
@@ -167,11 +169,63 @@ def run_t2t(c, timeout=20):
     signal.signal(signal.SIGALRM, _alarm)
     signal.alarm(timeout)
     try:
-        return _run_t2t(c)
+        r = _run_t2t(c)
     except Hang:
-        return ('HANG', 'no result within %d s' % timeout)
+        r = ('HANG', 'no result within %d s' % timeout)
     finally:
         signal.alarm(0)
+    if r[0] == 'HANG' or (r[0] == 'EXC' and 'RecursionError' in r[1]):
+        why = outside_claim(c)
+        if why:
+            return ('HANG', OUTSIDE + why)
+    return r
+
+
+OUTSIDE = 'outside the claim: '
+DEFINED = re.compile(r'\\(?:(?:re|provide)?newcommand\*?|def)\s*\{?\s*(\\(?:[A-Za-z@]+|.))', re.S)
+
+
+def outside_claim(c, budget=4):
+    """C07 leaves out definitions that call themselves and documents whose own
+    macros multiply their arguments.  Run the case again with a counter on
+    Parser.expand_macro: a macro the sources define themselves that is
+    expanded inside its own expansion (Python recursion), or far more often
+    than the sources are long, is such a definition."""
+    import collections, signal
+    srcs = [c.latex, c.defs or ''] + list((c.files or {}).values())
+    defined = set(m for s in srcs for m in DEFINED.findall(s))
+    if not defined:
+        return None
+    counts = collections.Counter()
+    active = []
+    nested = set()
+    orig = parser.Parser.expand_macro
+
+    def patched(self, buf, tok, math):
+        counts[tok.txt] += 1
+        if active.count(tok.txt) >= 3:
+            nested.add(tok.txt)
+        active.append(tok.txt)
+        try:
+            return orig(self, buf, tok, math)
+        finally:
+            active.pop()
+    parser.Parser.expand_macro = patched
+    signal.signal(signal.SIGALRM, _alarm)
+    signal.alarm(budget)
+    try:
+        _run_t2t(c)
+    except Hang:
+        pass
+    finally:
+        signal.alarm(0)
+        parser.Parser.expand_macro = orig
+    limit = 1000 + 20 * sum(len(s) for s in srcs)
+    heavy = sorted(n for n in defined if counts[n] > limit or n in nested)
+    if heavy:
+        return ('%s defined by the document and expanded %d times (sources: %d '
+                'characters)' % (heavy[0], counts[heavy[0]], sum(len(s) for s in srcs)))
+    return None
 
 
 def _run_t2t(c):
@@ -235,4 +289,6 @@ def parse_model_t2t(o):
         return ('EXC', r.word())
     if tag == 'FATAL':
         return ('FATAL', r.int())
+    if tag == 'FUEL':
+        return ('HANG', 'model: out of fuel')
     return (tag,)
